@@ -195,7 +195,7 @@ def _nm(modes, universe):
     return [m.name for m in modes]
 
 
-def _expand_statements(stmts, allometry=None):
+def _expand_statements(stmts, allometry=None, defaults=True):
     stmts = [s for s in stmts if s is not None]
     lets = {s.name: s.value for s in stmts if type(s).__name__ == 'Let'}
     out = defaultdict(set)
@@ -238,6 +238,8 @@ def _expand_statements(stmts, allometry=None):
             raise TypeError('unknown statement ' + k)
     if allometry is not None:
         out['ALLOMETRY'] |= {(allometry.covariate, float(allometry.reference))}
+    if not defaults:
+        return {c: frozenset(v) for c, v in out.items() if v}
     return _with_defaults(out)
 
 
@@ -432,37 +434,112 @@ def _check_string(texts, sep):
 
 # ---- contract of a pair of spaces ----
 
-C_OP_ERR = 'a+b, a-b, a==b, a.contain_subset(b), a.least_number_of_transformations(b) raise no internal error on parsed spaces'
-C_ADD = 'a+b expands to the union of the expanded spaces'
-C_SUB = 'a-b keeps exactly the features of a that are not in b (a category left empty is dropped or shows its documented default)'
-C_SUBSET = 'a.contain_subset(b) is True exactly when every feature of b is a feature of a'
-C_SUBSET_MS = "a.contain_subset(b, tool='modelsearch') is True exactly when every PK feature of b is a feature of a"
-C_LNT = 'least_number_of_transformations(a, b) has one feature of b for each category in which no feature of a is in b, and nothing else'
-C_LNT_MS = "least_number_of_transformations(a, b, tool='modelsearch') counts exactly the PK categories of the drug"
-C_EQ = 'a == b exactly when the expanded spaces are equal'
+def C_OP_ERR(dom):
+    return ('a+b, a-b, a==b, a.contain_subset(b), a.least_number_of_transformations(b) raise no internal '
+            f'error on parsed spaces ({dom})')
+
+
+def _op_dom(sa, sb, ea, eb):
+    """kind of operands, so that one cause of internal errors does not hide another"""
+    if not all(c in ea and c in eb for c in PK_CATS):
+        return 'an operand without PK features'
+    if any(x in s for s in (sa, sb) for x in ('(*', ',*')):
+        return 'PK operands written with wildcards'
+    return 'PK operands without wildcards'
+def C_ADD(cat):
+    return f'a+b expands to the union of the expanded spaces ({cat} features)'
+
+
+def C_SUB(cat):
+    return (f'a-b keeps exactly the {cat} features of a that are not in b (a category left empty is '
+            'dropped or shows its documented default)')
+
+
+def C_SUBSET(cat):
+    return f'a.contain_subset(b) is True exactly when every feature of b is a feature of a ({cat})'
+
+
+def C_SUBSET_MS(cat):
+    return ("a.contain_subset(b, tool='modelsearch') is True exactly when every PK feature of b is a "
+            f'feature of a ({cat})')
+
+
+def C_LNT(cat):
+    return ('least_number_of_transformations(a, b) has one feature of b for each category in which no '
+            f'feature of a is in b, and nothing else ({cat})')
+
+
+def C_LNT_MS(cat):
+    return ("least_number_of_transformations(a, b, tool='modelsearch') has one feature of b for each PK "
+            f'category of the drug in which no feature of a is in b, and nothing else ({cat})')
+
+
+def C_EQ(cat):
+    return f'a == b exactly when the expanded spaces are equal ({cat})'
+
+
 C_PURE = 'the operands are unchanged by the operations'
 C_RT_RES = 'the printed form of a+b and a-b parses back to the same space'
 
 LNT_CATS = PK_CATS + ('DIRECTEFFECT', 'EFFECTCOMP', 'INDIRECTEFFECT', 'METABOLITE')
 
+_MF_GROUPS = (('ABSORPTION', lambda m: [m.absorption]), ('ELIMINATION', lambda m: [m.elimination]),
+              ('TRANSITS', lambda m: list(m.transits)), ('PERIPHERALS', lambda m: list(m.peripherals)),
+              ('LAGTIME', lambda m: [m.lagtime]), ('COVARIATE', lambda m: list(m.covariate)),
+              ('DIRECTEFFECT', lambda m: [m.direct_effect]), ('EFFECTCOMP', lambda m: [m.effect_comp]),
+              ('INDIRECTEFFECT', lambda m: list(m.indirect_effect)),
+              ('METABOLITE', lambda m: [m.metabolite]), ('ALLOMETRY', lambda m: []))
 
-def _check_difference(got, ea, eb):
+
+def _expand_mf_parts(mf):
+    """(expansion, {category: error}) of a ModelFeatures object, category by category, so that one
+    malformed statement does not hide the others"""
+    out, broken = {}, {}
+    for cat, get in _MF_GROUPS:
+        try:
+            part = _expand_statements(get(mf), allometry=mf.allometry if cat == 'ALLOMETRY' else None,
+                                      defaults=False)
+            out.update(part)
+        except Exception as e:
+            broken[cat] = _exc(e)
+    return _with_defaults(out), broken
+
+
+def _first_diff(x, y, cats=None):
+    """first category (fixed order) in which two spaces differ"""
+    for c in ALL_CATS:
+        if cats is not None and c not in cats:
+            continue
+        a, b = x.get(c, frozenset()), y.get(c, frozenset())
+        if c == 'COVARIATE':
+            a, b = _cov_norm(a), _cov_norm(b)
+        if a != b:
+            return c
+    return None
+
+
+def _check_difference(got, broken, ea, eb):
+    """[(category, message)]"""
     ref = _ref_difference(ea, eb)
-    for c in set(ref) | set(got):
+    bad = []
+    for c in ALL_CATS:
+        if c in broken:
+            bad.append((c, f'statement not expandable ({broken[c]})'))
+            continue
         want = ref.get(c, frozenset())
         have = got.get(c, frozenset())
         if c == 'COVARIATE':
             want, have = _cov_norm(want), _cov_norm(have)
         if want:
             if have != want:
-                return f'category {c}: got {sorted(have, key=repr)} expected {sorted(want, key=repr)}'
+                bad.append((c, f'got {sorted(have, key=repr)} expected {sorted(want, key=repr)}'))
         else:
             allowed = [frozenset()]
             if c in PK_DEFAULT:
                 allowed.append(frozenset([PK_DEFAULT[c]]))
             if have not in allowed:
-                return f'category {c}: got {sorted(have, key=repr)} expected nothing (or the default)'
-    return None
+                bad.append((c, f'got {sorted(have, key=repr)} expected nothing (or the default)'))
+    return bad
 
 
 _SPACE_CACHE = {}
@@ -518,7 +595,7 @@ def _check_pair(ta, tb, sep=';', roundtrip=False):
             err = e
         except Exception as e:
             err = e
-        out.append((fid, C_OP_ERR, f'{name}: {where} raised {_exc(err)}'))
+        out.append((fid, C_OP_ERR(_op_dom(sa, sb, ea, eb)), f'{name}: {where} raised {_exc(err)}'))
         if 'xa' not in state:
             try:
                 state['xa'], state['xb'] = a.expand(None), b.expand(None)
@@ -534,67 +611,61 @@ def _check_pair(ta, tb, sep=';', roundtrip=False):
         except Exception:
             return False, None
 
+    def reprint(r, got, what):
+        try:
+            back = _reparse(r, got)
+            if back is not None and not _same_space(back, got):
+                out.append((MF + '__repr__', C_RT_RES,
+                            f'{where}: {what} prints as {r!r} which expands to {_fmt(back)}, the object '
+                            f'holds {_fmt(got)}'))
+        except Exception as e:
+            out.append((MF + '__repr__', C_RT_RES, f'{where}: {what} = {r!r}: {_exc(e)}'))
+
     MF = MFL_PARSE + ':ModelFeatures.'
     ok, r = run('a+b', MF + '__add__', lambda x, y: x + y)
     if ok:
-        try:
-            got = _expand_mf(r)
-        except Exception as e:
-            got = None
-            out.append((MF + '__add__', C_ADD, f'{where}: result not expandable ({_exc(e)})'))
-        if got is not None:
-            want = _with_defaults(_ref_union(ea, eb))
-            if not _same_space(got, want):
-                out.append((MF + '__add__', C_ADD,
-                            f'{where}: a+b = {r!r} expands to {_fmt(got)} expected {_fmt(want)}'))
-            if roundtrip:
-                try:
-                    back = _reparse(r, got)
-                    if back is not None and not _same_space(back, got):
-                        out.append((MF + '__repr__', C_RT_RES,
-                                    f'{where}: a+b prints as {r!r} which expands to {_fmt(back)}, the '
-                                    f'object holds {_fmt(got)}'))
-                except Exception as e:
-                    out.append((MF + '__repr__', C_RT_RES, f'{where}: a+b = {r!r}: {_exc(e)}'))
+        got, broken = _expand_mf_parts(r)
+        want = _with_defaults(_ref_union(ea, eb))
+        for c in ALL_CATS:
+            if c in broken:
+                out.append((MF + '__add__', C_ADD(c), f'{where}: statement not expandable ({broken[c]})'))
+            elif _first_diff(got, want, cats=(c,)):
+                out.append((MF + '__add__', C_ADD(c),
+                            f'{where}: a+b = {r!r} has {sorted(got.get(c, ()), key=repr)} expected '
+                            f'{sorted(want.get(c, ()), key=repr)}'))
+        if roundtrip and not broken:
+            reprint(r, got, 'a+b')
     ok, r = run('a-b', MF + '__sub__', lambda x, y: x - y)
     if ok:
-        try:
-            got = _expand_mf(r)
-        except Exception as e:
-            got = None
-            out.append((MF + '__sub__', C_SUB, f'{where}: result not expandable ({_exc(e)})'))
-        if got is not None:
-            msg = _check_difference(got, ea, eb)
-            if msg:
-                out.append((MF + '__sub__', C_SUB, f'{where}: a-b = {r!r}: {msg}'))
-            if roundtrip:
-                try:
-                    back = _reparse(r, got)
-                    if back is not None and not _same_space(back, got):
-                        out.append((MF + '__repr__', C_RT_RES,
-                                    f'{where}: a-b prints as {r!r} which expands to {_fmt(back)}, the '
-                                    f'object holds {_fmt(got)}'))
-                except Exception as e:
-                    out.append((MF + '__repr__', C_RT_RES, f'{where}: a-b = {r!r}: {_exc(e)}'))
+        got, broken = _expand_mf_parts(r)
+        for c, msg in _check_difference(got, broken, ea, eb):
+            try:
+                shown = repr(r)
+            except Exception as e:
+                shown = f'<unprintable: {_exc(e)}>'
+            out.append((MF + '__sub__', C_SUB(c), f'{where}: a-b = {shown}: {msg}'))
+        if roundtrip and not broken:
+            reprint(r, got, 'a-b')
     ok, r = run('a==b', MF + '__eq__', lambda x, y: x == y)
     if ok:
-        want = _same_space(ea, eb)
+        diff = _first_diff(ea, eb)
+        want = diff is None
         if r is not want:
-            out.append((MF + '__eq__', C_EQ, f'{where}: a==b is {r!r}, expanded spaces equal: {want}'))
-    ok, r = run('contain_subset', MF + 'contain_subset', lambda x, y: x.contain_subset(y))
-    if ok:
-        want = _ref_subset(ea, eb)
-        if r is not want:
-            out.append((MF + 'contain_subset', C_SUBSET,
-                        f'{where}: contain_subset is {r!r}, every feature of b in a: {want}'))
-    ok, r = run("contain_subset(tool='modelsearch')", MF + 'contain_subset',
-                lambda x, y: x.contain_subset(y, tool='modelsearch'))
-    if ok:
-        want = _ref_subset(ea, eb, cats=PK_CATS, drug_only=True)
-        if r is not want:
-            out.append((MF + 'contain_subset', C_SUBSET_MS,
-                        f"{where}: contain_subset(tool='modelsearch') is {r!r}, every PK feature of b "
-                        f'in a: {want}'))
+            out.append((MF + '__eq__', C_EQ(f'spaces differing in {diff}' if diff else 'equal spaces'),
+                        f'{where}: a==b is {r!r}, expanded spaces equal: {want}'))
+    for tool, clause, cats, drug_only in ((None, C_SUBSET, None, False),
+                                          ('modelsearch', C_SUBSET_MS, PK_CATS, True)):
+        ok, r = run(f'contain_subset(tool={tool!r})', MF + 'contain_subset',
+                    lambda x, y: x.contain_subset(y, tool=tool))
+        if ok:
+            notin = [c for c in ALL_CATS if (cats is None or c in cats) and c in eb
+                     and not _ref_subset(ea, eb, cats=(c,), drug_only=drug_only)]
+            want = not notin
+            if r is not want:
+                dom = f'b has {notin[0]} features that a lacks' if notin else 'b is contained in a'
+                out.append((MF + 'contain_subset', clause(dom),
+                            f'{where}: contain_subset(tool={tool!r}) is {r!r}, every feature of b in a: '
+                            f'{want}'))
     for tool, clause, cats, drug_only in ((None, C_LNT, LNT_CATS, False),
                                           ('modelsearch', C_LNT_MS, PK_CATS, True)):
         # a category that only one of the spaces has cannot be compared (documented ValueError)
@@ -609,18 +680,25 @@ def _check_pair(ta, tb, sep=';', roundtrip=False):
             keys = list(r.keys())
             have = sorted(_key_subcat(k) for k in keys)
             bad = None
-            if have != need:
-                bad = f'keys {keys} are in categories {have}, expected one each in {need}'
+            extra = [k for k in have if k not in need or have.count(k) > 1]
+            missing = [k for k in need if k not in have]
+            if extra:
+                bad = ('/'.join(extra[0]) + ' not needed',
+                       f'keys {keys} are in categories {have}, expected one each in {need}')
+            elif missing:
+                bad = ('/'.join(missing[0]) + ' missing',
+                       f'keys {keys} are in categories {have}, expected one each in {need}')
             else:
                 sub = _lnt_subcats(eb, cats)
                 for k in keys:
                     if _key_atom(k) not in sub[_key_subcat(k)]:
-                        bad = f'key {k} is not a feature of b'
+                        bad = ('/'.join(_key_subcat(k)) + ' feature not of b', f'key {k} is not a feature of b')
                     elif not callable(r[k]):
-                        bad = f'key {k} has no transformation function'
+                        bad = ('/'.join(_key_subcat(k)) + ' without function',
+                               f'key {k} has no transformation function')
             if bad:
-                out.append((MF + 'least_number_of_transformations', clause,
-                            f'{where}: tool={tool!r}: {bad}'))
+                out.append((MF + 'least_number_of_transformations', clause(bad[0]),
+                            f'{where}: tool={tool!r}: {bad[1]}'))
     try:
         if not (_same_space(_expand_mf(a), ea) and _same_space(_expand_mf(b), eb)):
             out.append((MF + '__add__', C_PURE, f'{where}: operands changed to {a!r} / {b!r}'))
@@ -1816,7 +1894,12 @@ C_WF_ONESINK = 'as_dask_dict raises the documented ValueError exactly when the w
 C_WF_GET = 'threaded execution of as_dask_dict equals the sequential reference evaluation, whatever the number of scheduler threads'
 C_WF_ONCE = 'every task is called exactly once'
 C_WF_RUN = 'the local_dask dispatcher (threaded) returns the reference value of the single output task'
-C_WF_EXEC = 'execute_workflow returns the reference value of the workflow it was given: static inputs, context first where the function takes it, then predecessor results in the entry order of the given workflow'
+def C_WF_EXEC(mixed):
+    return ('execute_workflow returns the reference value of the workflow it was given: static inputs, '
+            'context first where the function takes it, then predecessor results in the entry order of '
+            'the given workflow ('
+            + ('some task has both context-taking and other predecessors' if mixed else
+               'no task has both context-taking and other predecessors') + ')')
 C_WF_CTX = 'insert_context prepends the context to exactly the tasks whose function takes a context first and keeps every other task, all edges and the task count'
 C_WF_PURE = 'a Workflow built from a builder is not changed by later builder operations'
 
@@ -2072,7 +2155,7 @@ def _check_wf_case(case):
         if len(other) != case['b'] or _check_structure(other, refb, where):
             out.append((fid, C_WF_PURE, f'{where}: the inserted workflow changed'))
         wf = Workflow(wba)
-        out += _check_dask_and_run(wf, ref, specs, where)
+        out += [(fid, c, d) for _, c, d in _check_dask_and_run(wf, ref, specs, where)]
     elif kind == 'replace':
         tasks, specs = _new_tasks(case['n'], 'distinct')
         wb, ref = _build_dag(tasks, case['edges'], list(range(case['n'])))
@@ -2090,7 +2173,7 @@ def _check_wf_case(case):
         except Exception as e:
             return [(fid, C_WF_KEEP, f'{where}: raised {_exc(e)}')]
         out += [(fid, c, d) for _, c, d in _check_structure(wb, ref, where)]
-        out += _check_dask_and_run(Workflow(wb), ref, specs, where)
+        out += [(fid, c, d) for _, c, d in _check_dask_and_run(Workflow(wb), ref, specs, where)]
     elif kind == 'plus':
         n, k = case['n'], case['k']
         tasks, specs = _new_tasks(n, 'distinct')
@@ -2115,7 +2198,8 @@ def _check_wf_case(case):
         out += [(fid, c, d) for _, c, d in _check_structure(res, ref, where)]
         if _check_structure(wb1, ref1, where) or _check_structure(wb2, ref2, where):
             out.append((fid, C_WF_PURE, f'{where}: an operand changed'))
-        out += _check_dask_and_run(res if not case['builder'] else Workflow(res), ref, specs, where)
+        out += [(fid, c, d) for _, c, d in
+                _check_dask_and_run(res if not case['builder'] else Workflow(res), ref, specs, where)]
     elif kind == 'context':
         from pharmpy.workflows import execute_workflow, local_dask
         from pharmpy.workflows.workflow import insert_context
@@ -2163,17 +2247,18 @@ def _check_wf_case(case):
             out.append((fid, C_WF_CTX, f'{where}: raised {_exc(e)}'))
         # execute_workflow end to end (threaded local_dask dispatcher, the given context)
         want = _ref_eval(ref, specs, context=CTX)[ref.outputs()[0]]
+        mixed = any(len({specs[p].ctx for p in ref.preds(t)}) > 1 for t in tasks)
         old = D.conf.dask_dispatcher
         D.conf.dask_dispatcher = 'threaded'
         try:
             del _CALLS[:]
             got = execute_workflow(wf, dispatcher=local_dask, context=CTX)
             if got != want:
-                out.append((WF_EXEC, C_WF_EXEC, f'{where}: result {got!r} reference {want!r}'))
+                out.append((WF_EXEC, C_WF_EXEC(mixed), f'{where}: result {got!r} reference {want!r}'))
             elif sorted(_CALLS) != sorted(specs[t].static[0] for t in tasks):
                 out.append((WF_EXEC, C_WF_ONCE, f'{where}: calls {sorted(_CALLS)}'))
         except Exception as e:
-            out.append((WF_EXEC, C_WF_EXEC, f'{where}: raised {_exc(e)}'))
+            out.append((WF_EXEC, C_WF_EXEC(mixed), f'{where}: raised {_exc(e)}'))
         finally:
             D.conf.dask_dispatcher = old
         if len(wf) != n or [id(t) for t in wf.tasks] != [id(t) for t in tasks]:
